@@ -40,6 +40,9 @@ pub enum Delivery {
     Tx { txs: Vec<(u8, bool, bool)>, key: KeySel, path: Path },
     /// bit i set = op i of the pool included; op 3 is signed by a non-writer
     Reg { ops: u8, key: KeySel, path: Path },
+    /// the chunk whose content is the owner's public-key bytes: its address is the key the owner's
+    /// scratchpad and transaction set live under (section same_key_other_kind)
+    OwnerKeyChunk { path: Path },
 }
 
 #[derive(Clone, Debug, Serialize, Deserialize)]
@@ -199,7 +202,7 @@ impl World {
     fn proof_for(&mut self, kind: Kind, xorname: xor_name::XorName, seed: u8) -> ProofOfPayment {
         let mut pl = payload(kind, 0);
         pl.xorname = xorname;
-        let pc = PayCase { kind, paid: true, prior: 0, rt_peers: 0, s: SFault::Ok, p: true, k: KFault::Ok, e: EFault::Ok, o: [true; 3], a: true, own_pos: 0, seed };
+        let pc = PayCase { kind, paid: true, prior: 0, rt_peers: 0, s: SFault::Ok, p: true, k: KFault::Ok, e: EFault::Ok, o: [true; 3], rpc: Default::default(), a: true, own_pos: 0, seed };
         build_proof(&pc, &mut self.cl, &pl).0
     }
 
@@ -237,6 +240,17 @@ impl World {
                     _ => try_serialize_record(&list, RecordKind::Transaction).unwrap().to_vec(),
                 };
                 (fix::record(k, value), *path)
+            }
+            Delivery::OwnerKeyChunk { path } => {
+                let chunk = ant_protocol::storage::Chunk::new(bytes::Bytes::from(fix::pk(OWNER).to_bytes().to_vec()));
+                let value = match path {
+                    Path::Paid => {
+                        let proof = self.proof_for(Kind::Chunk, *chunk.name(), idx as u8);
+                        try_serialize_record(&(proof, chunk.clone()), RecordKind::ChunkWithPayment).unwrap().to_vec()
+                    }
+                    _ => try_serialize_record(&chunk, RecordKind::Chunk).unwrap().to_vec(),
+                };
+                (fix::record(self.key.clone(), value), *path)
             }
             Delivery::Reg { ops, key, path } => {
                 let base = fix::register_base(OWNER, REG_META, Some(vec![]));
@@ -453,6 +467,160 @@ fn check(case: &Case, ctx: &mut Ctx) {
     ctx.nontrivial_if((stale > 0 && accepted_updates > 0) || overlaps > 0);
 }
 
+// ------------------------------------------------------------------------------------------------
+// section same_key_other_kind: an owner's scratchpad, an owner's transaction set and the chunk made
+// of the owner's public-key bytes all live under ONE record key. Whatever kind is stored there
+// first, a delivery of another kind must not replace, shrink or regress it.
+// ------------------------------------------------------------------------------------------------
+
+#[derive(Clone, Debug, Serialize, Deserialize)]
+pub struct MixCase {
+    /// deliveries of one kind that establish the stored record
+    pub setup: Vec<Delivery>,
+    /// deliveries of the other kinds for the same owner, then (possibly) more of the first kind
+    pub later: Vec<Delivery>,
+}
+
+#[derive(Clone, Debug, PartialEq, Eq)]
+enum Obs {
+    Absent,
+    Pad(u64, Vec<u8>, bool),
+    Tx(BTreeSet<Vec<u8>>),
+    Chunk(Vec<u8>),
+    Undecodable,
+}
+
+fn kind_tag(d: &Delivery) -> u8 {
+    match d {
+        Delivery::Pad { .. } => 0,
+        Delivery::Tx { .. } => 1,
+        Delivery::OwnerKeyChunk { .. } => 2,
+        Delivery::Reg { .. } => 3,
+    }
+}
+
+fn mix_delivery(kind: u8) -> BoxedStrategy<Delivery> {
+    match kind {
+        0 => (1u8..7, 0u8..3, path_strategy()).prop_map(|(counter, data, path)| Delivery::Pad { counter, sig: fix::Sig::Valid, data, foreign_owner: false, key: KeySel::Own, path }).boxed(),
+        1 => (proptest::collection::vec((0u8..4, Just(true), Just(false)), 1..3), path_strategy()).prop_map(|(txs, path)| Delivery::Tx { txs, key: KeySel::Own, path }).boxed(),
+        _ => path_strategy().prop_map(|path| Delivery::OwnerKeyChunk { path }).boxed(),
+    }
+}
+
+fn mix_strategy() -> BoxedStrategy<MixCase> {
+    (0u8..3)
+        .prop_flat_map(|first| {
+            let setup_path = prop_oneof![Just(Path::Paid), Just(Path::Replicated)];
+            let setup = proptest::collection::vec((mix_delivery(first), setup_path), 1..3).prop_map(|v| {
+                v.into_iter()
+                    .map(|(mut d, p)| {
+                        match &mut d {
+                            Delivery::Pad { path, .. } | Delivery::Tx { path, .. } | Delivery::OwnerKeyChunk { path } | Delivery::Reg { path, .. } => *path = p,
+                        }
+                        d
+                    })
+                    .collect::<Vec<_>>()
+            });
+            let other = (0u8..3).prop_filter_map("other kind", move |k| (k != first).then_some(k)).prop_flat_map(mix_delivery);
+            let later = proptest::collection::vec(prop_oneof![4 => other, 1 => mix_delivery(first)], 1..vh_core::depth(5, 10));
+            (setup, later)
+        })
+        .prop_map(|(setup, later)| MixCase { setup, later })
+        .boxed()
+}
+
+fn observe_any(w: &mut World) -> Obs {
+    let Some(r) = w.cl.local_get(0, &w.key.clone()) else { return Obs::Absent };
+    if let Ok(p) = try_deserialize_record::<Scratchpad>(&r) {
+        if ant_protocol::storage::RecordHeader::from_record(&r).map(|h| h.kind == RecordKind::Scratchpad).unwrap_or(false) {
+            let ok = fix::scratchpad_is_authentic(&p, &fix::pk(OWNER));
+            return Obs::Pad(p.count(), p.encrypted_data().to_vec(), ok);
+        }
+    }
+    match ant_protocol::storage::RecordHeader::from_record(&r).map(|h| h.kind) {
+        Ok(RecordKind::Transaction) => match try_deserialize_record::<Vec<Transaction>>(&r) {
+            Ok(txs) => Obs::Tx(txs.iter().map(|t| rmp_serde::to_vec(t).unwrap_or_default()).collect()),
+            Err(_) => Obs::Undecodable,
+        },
+        Ok(RecordKind::Chunk) => match try_deserialize_record::<ant_protocol::storage::Chunk>(&r) {
+            Ok(c) => Obs::Chunk(c.value().to_vec()),
+            Err(_) => Obs::Undecodable,
+        },
+        _ => Obs::Undecodable,
+    }
+}
+
+fn check_mix(case: &MixCase, ctx: &mut Ctx) {
+    let key = fix::scratchpad_key(OWNER);
+    if key != fix::transaction_key(OWNER) {
+        // the addressing scheme no longer maps the kinds to one key: nothing to check
+        ctx.label("kinds_no_longer_share_a_key");
+        return;
+    }
+    let mut w = World { cl: Cluster::new(&[1], None), key, random_key: RecordKey::new(&fix::h32("c07-random", &[1])), foreign_key: fix::scratchpad_key(FOREIGN), reg_ops: vec![] };
+    let first = kind_tag(&case.setup[0]);
+    let mut idx = 0usize;
+    let mut deliver = |w: &mut World, d: &Delivery, idx: &mut usize| -> bool {
+        let (rec, path) = w.record_for(d, *idx);
+        *idx += 1;
+        let op = w.start(rec, path);
+        w.cl.settle_op(&op);
+        w.cl.settle();
+        !w.cl.inconclusive
+    };
+    for d in &case.setup {
+        if !deliver(&mut w, d, &mut idx) {
+            ctx.label("inconclusive_timeout");
+            return;
+        }
+    }
+    let mut held = observe_any(&mut w);
+    let established = match (&held, first) {
+        (Obs::Pad(..), 0) | (Obs::Tx(_), 1) | (Obs::Chunk(_), 2) => true,
+        _ => false,
+    };
+    ctx.label(format!("first_kind_{}", ["scratchpad", "transactions", "chunk"][first as usize]));
+    if !established {
+        ctx.fail("valid_first_upload_not_stored", format!("setup {:?} left {held:?}", case.setup));
+        return;
+    }
+    let mut intrusions = 0;
+    for d in &case.later {
+        let other = kind_tag(d) != first;
+        if !deliver(&mut w, d, &mut idx) {
+            ctx.label("inconclusive_timeout");
+            return;
+        }
+        let now = observe_any(&mut w);
+        if other {
+            intrusions += 1;
+            if now != held {
+                let names = ["scratchpad", "transactions", "chunk", "register"];
+                ctx.fail(
+                    format!("stored_{}_replaced_by_delivery_of_another_kind", names[first as usize]),
+                    format!("the key held {held:?}; after {d:?} (same owner, same record key) it holds {now:?}"),
+                );
+                return;
+            }
+        } else {
+            // same kind: may grow / move forward, never to another kind, never shrink or regress
+            let fine = match (&held, &now) {
+                (Obs::Pad(c0, _, _), Obs::Pad(c1, _, ok)) => c1 >= c0 && *ok,
+                (Obs::Tx(a), Obs::Tx(b)) => a.is_subset(b),
+                (Obs::Chunk(a), Obs::Chunk(b)) => a == b,
+                _ => false,
+            };
+            if !fine {
+                ctx.fail("record_regressed_after_interleaved_other_kind", format!("held {held:?}; after {d:?}: {now:?}"));
+                return;
+            }
+            held = now;
+        }
+    }
+    ctx.label_if(intrusions > 1, "several_other_kind_deliveries");
+    ctx.nontrivial_if(intrusions > 0);
+}
+
 pub fn run(cfg: RunCfg) {
     let mut rep = Report::new(cfg, "exploration");
     rep.rule = "C07: per kind (scratchpad / transactions / register) histories of <=9 deliveries for one owner with generated counters, signature validity, signer, key, path (paid / unpaid / replicated); flagged neighbours run concurrently under a generated command schedule.".into();
@@ -465,6 +633,11 @@ pub fn run(cfg: RunCfg) {
         rep, "updates", (5_000, 80_000), 16,
         "non-trivial: (>=1 rejected/stale delivery and >=1 accepted update) or an overlapping pair; distinct by whole history",
         case_strategy, check
+    );
+    vh_core::section!(
+        rep, "same_key_other_kind", (1_200, 20_000), 16,
+        "an owner's scratchpad, transaction set and the chunk of the owner's public-key bytes share one record key: 1-2 valid deliveries of one kind establish the record, then 1..5 deliveries of the other kinds (paid / unpaid / replicated) and of the same kind; the stored record must never be replaced by another kind, shrink or regress. non-trivial: >= 1 delivery of another kind after the record is established",
+        mix_strategy, check_mix
     );
     rep.finish();
 }
